@@ -399,10 +399,12 @@ pub fn node_out(p: &Prog, idx: usize, op: &Op, ins: &[EdgeInfo]) -> Result<Vec<E
         Op::DeferTick { .. } => vec![mk(&tys[0], ins[0].ord, weaken(ins[0].card))],
         Op::LatticeFold { .. } => vec![mk(&tys[0], Seq, One)],
         Op::LatticeReduce { .. } => vec![mk(&tys[0], Seq, Opt)],
-        Op::State { .. } => vec![
+        Op::State { .. } | Op::StateBy { .. } => vec![
             mk(&tys[0], ins[0].ord, weaken(ins[0].card)),
             mk(&tys[1], Seq, One),
         ],
+        Op::DemuxEnum => tys.iter().map(|t| mk(t, ins[0].ord, weaken(ins[0].card))).collect(),
+        Op::Initialize => vec![mk(&tys[0], Seq, Opt)],
         Op::ForEach { .. } | Op::Null => vec![],
     };
     if matches!(op, Op::Handoff | Op::Singleton | Op::Optional) {
